@@ -32,6 +32,10 @@ def _gen(name, corr_is_property, extra_assumptions=()):
                 assumptions=["the model Codec.v transcribes src/codec.rs, src/compact.rs, src/bit_vec.rs and the derive expansion; agreement with the working tree is sampled on every run (registry of ~190 concrete types, seeded boundary-biased values and mutated byte strings); the theorems about the model are unbounded"] + list(extra_assumptions))
 
 PROPS.update({
+    "C17": dict(harness="c17", model_fn="c17_model", corr_is_property=True, custom=__import__("c17").run, harness_timeout=3000,
+        corr_name="CorrC17.c17_check: rustc + derive macros accept/reject of generated definitions vs Derive.derive_accepts / compact_as_accepts",
+        trusted_base=["rustc's own checks (duplicate Rust discriminants etc.) are kept out of the way by the generator, so a rejection is the macro's; the attribution of a compiler error to a definition uses the diagnostic's line spans; unexpected verdicts are re-checked by compiling the definition alone"],
+        assumptions=["that rustc compiles every definition the model accepts is observed on the generated programs (valid twins), not proved; field types in the generated programs support the derived traits"]),
     "C10": dict(harness="c10", model_fn=None, corr_is_property=False, harness_timeout=1200,
         corr_name="Ledger.ledger_check: number of elements constructed / dropped by the real decode vs the ledger model, per (slots, failure position, kind)",
         trusted_base=["the ledger model abstracts Rust's ownership: a value is dropped when its owner goes out of scope on the error path or during unwinding; Vec, Box, LinkedList, BTreeMap drop their contents when dropped (std, trusted); MaybeUninit never drops its content"],
